@@ -769,7 +769,10 @@ package server
 // the subscribe loop: what is sent to the subscriber is the reader's message at the reader's offset,
 // inside the requested range, and (on encrypted streams) the decrypted value
 //@ ghost var opened set[[]byte]
-//@ func (*partition).newSubscribeLoop$1 serves C10, C17
+// (C13) a subscription loop parked at the hand-over of a message keeps watching its own cancel channel: that is how a
+// replaced group member stops (its request context may live on)
+//@ func (*partition).newSubscribeLoop$1 serves C10, C17, C13
+//@   call selectsend.ch requires [C13:a-cancelled-subscription-stops-at-the-hand-over] arg2 == cancel
 //@   ghost after call Read: ghost.opened[ret0] := ghost.opened[ret0] || ret1 == nil
 //@   call send.ch requires [reader-offset] arg1.Offset == offset && arg1.Timestamp == timestamp
 //@   call send.ch requires [within-range] stopOffset == -1 || arg1.Offset <= stopOffset
